@@ -24,7 +24,7 @@ CHECKS = {
  "C19": ("exploration", "runtime monitor of Step/Adjust calls on a scripted clock while the real PLL is fed seeded (offset, weight, time, epoch) histories; plus the real clock driver (and the PLL on it) in child processes under strace, whose clock_adjtime calls are logged and answered by injection, replayed against the Step/Adjust calls a recording wrapper saw",
          "Necessary conditions from the statement evaluated on every actuation of every generated history (both epoch-bumping and non-bumping clocks); on the driver: every kernel call accounted for by a request, frequency = f + offset/duration, restored after the duration (never before, unless a step cuts it short), steps in normalised nanosecond form and one new epoch per step.",
          "non-decreasing clock readings; for gaps >= 2^23 s the duration is accepted within float rounding; the kernel leg runs in real time (whole-second durations of 1..2 s) and needs strace's syscall injection — where the canary call is not intercepted the leg does not run and says so in the evidence", "3/C19"),
- "C01": ("exploration", "runtime monitor of Do/Sleep/measure events of the real sync.Run inside testing/synctest bubbles (virtual time) with scripted clock, adjustment and sources",
+ "C01": ("exploration", "runtime monitor of Do/Sleep/measure events of the real sync.Run inside testing/synctest bubbles (virtual time) with scripted clock, adjustment and sources; plus a leg compiled into the service's own package (overlay build) that checks that timeservice.go hands the configured factors, cutoff, timeout, interval and drift on unchanged and that its defaults are admissible",
          "Held on every generated configuration x source script: event grammar, timing on the virtual clock, magnitude bound, and the composition clause in rounds determined by their own measurements; inadmissible configurations refused before any measurement.",
          "trusts testing/synctest; correction caps < 2^63 ns; composition clause for |offset| >= 2^62 only where all answers of a side agree", "3/C01"),
  "C12": ("exploration", "runtime monitor of Provider.Current/Get under testing/synctest virtual time from 1..16 goroutines with the race detector; per-call oracle at the exact virtual instant plus scheduled Get probes",
@@ -60,7 +60,7 @@ CHECKS = {
  "C13": ("exploration", "runtime monitor on real sockets: SCION requests with independently computed packet authenticators (scion library spao) against the real listeners and dispatcher in child processes, with the project's mock DRKey for the byte-level cases and with real DRKey fetching from a scripted SCION daemon (gRPC) for key binding; the real authenticated SCION client against a scripted peer and against the real listener; forwarding observed on application sockets",
          "Authenticated requests served iff the MAC is intact over definitely covered bytes; replies checked for server SPI, a verifying MAC, exchanged addressing, library path reversal, intact SCMP payload; forwarding exactly on the end-host port and never to it; bad MACs never accepted by the client. With real key fetching: served iff signed under the host-to-host key of exactly the packet's ISD-ASes, hosts and epoch, for every order of identities (level-2 key cache); real client and listener agree on the key.",
          "a scripted daemon instead of a control plane (keys are a deterministic function of identity and epoch, derived with the scion library's generic derivation); hand-built paths", "3/C13"),
- "C15": ("exploration", "runtime monitors: crypto.Sample/RandIntn with crypto/rand.Reader replaced by a scripted word source (structure, rejection threshold, chi-square uniformity, full 2^32-word enumeration for n=3 in thorough), and rounds of the real MeasureClockOffsetSCION observed on the wire by per-path scripted servers, race detector on",
+ "C15": ("exploration", "runtime monitors: crypto.Sample/RandIntn with crypto/rand.Reader replaced by a scripted word source (structure, rejection threshold, chi-square uniformity, full 2^32-word enumeration for n=3 in thorough), and rounds of the real MeasureClockOffsetSCION observed on the wire by per-path scripted servers, race detector on; plus a leg compiled into the service's own package (go test -c -overlay, nothing written to the repository) that asserts the wiring of a SCION reference clock: seven clients, each with a filter of its own",
          "Client->path relation per round reconstructed from the requests each path's server received (clients told apart by DSCP): injective, within the offer, sticky for interleaved clients, reset on withdrawal; result compared with the fault-tolerant midpoint of the participants' known offsets.",
          "hand-built paths and scripted servers instead of a SCION network; uniformity is statistical (p ~ 1e-9) plus exhaustive only for n=3; race reports are observations (O1), the property does not claim race freedom", "3/C15"),
  "C03": ("exploration", "runtime monitor of the real IP and SCION clients (basic and interleaved) against scripted loopback servers with per-exchange clock offsets, delays, loss, duplicates, stale replays and server switching; a spy filter exposes the four timestamps combined, kernel timestamps and the peer's clock readings share one machine clock",
